@@ -406,6 +406,28 @@ func (e *c17Env) check(t fataler, doc any) (msg string, info map[string]bool) {
 				rs = append(rs, result{"ValidateData(yaml)", schema.ValidateData(yamlData)}, result{"ValidateFile(.yaml)", schema.ValidateFile(yp)})
 			}
 			rs = append(rs, result{"Get().ValidateData(json)", schema.Get().ValidateData(jsonData)})
+			// a schema object validates with itself, whatever the active schema is
+			var raw specs.Spec
+			dec := json.NewDecoder(bytes.NewReader(jsonData))
+			dec.DisallowUnknownFields()
+			if isObj && dec.Decode(&raw) == nil && gen.CanonTree(gen.ToTree(&raw)) == gen.CanonTree(doc) {
+				for _, own := range []struct {
+					name    string
+					s       *schema.Schema
+					decides bool
+				}{{"builtin", schema.BuiltinSchema(), true}, {"external copy", e.external, true}, {"none", none, false}, {"NOP", schema.NopSchema(), false}, {"nil", nilSchema, false}} {
+					for _, r := range []result{{"Validate(spec)", own.s.Validate(&raw)}, {"ValidateType(spec)", own.s.ValidateType(&raw)}} {
+						switch {
+						case own.decides && !malformed && (r.err == nil) != want:
+							msg = fmt.Sprintf("%s schema object, %s while the active schema is %s: %s, but draft-07 semantics of the shipped schema files say valid=%v", own.name, r.name, cfg.name, verdictStr(r.err), want)
+							return
+						case !own.decides && r.err != nil:
+							msg = fmt.Sprintf("%s schema object, %s while the active schema is %s: rejected an in-memory Spec: %v", own.name, r.name, cfg.name, r.err)
+							return
+						}
+					}
+				}
+			}
 			for _, r := range rs {
 				switch {
 				case cfg.decides && !malformed && (r.err == nil) != want:
